@@ -421,6 +421,20 @@ class Env:
             ok = bool(cond)
             self.checks.append((name, ok, info))
 
+    def draw(self, index, kind):
+        """value of the index-th draw of the random stubs (symbolic variable or the concrete value fed)."""
+        name = f'draw{index}_{kind}'
+        if self.symbolic:
+            if kind in ('randint', 'choice'):
+                return SI(z3.Int(name))
+            return R(z3.Real(name))
+        for n_, v in self._feeder.log:
+            if n_ == name:
+                if kind in ('randint', 'choice'):
+                    return int(v)
+                return R(Fr(float(v))) if self.impl == 'model' else float(v)
+        raise KeyError(name)
+
     def events(self, kind=None):
         """event log of the current run (model impl) or the recorded warnings (real impl)."""
         if self.impl == 'model':
@@ -570,6 +584,7 @@ def run_concrete(scen, cfg, values, impl, lib=None, rng=None, timeout=20):
         lib.reset()
         env = Env(False, 'real', lib, values, rng)
         feeder = _DrawFeeder(values, rng)
+        env._feeder = feeder
         saved = (numpy.random.normal, numpy.random.randn, numpy.random.randint, numpy.random.choice)
 
         def normal(loc=0.0, scale=1.0, size=None):
@@ -626,6 +641,7 @@ def run_concrete(scen, cfg, values, impl, lib=None, rng=None, timeout=20):
     set_ctx(c)
     lib.reset()
     env = Env(False, 'model', lib, values, rng)
+    env._feeder = feeder
     status, exc = 'ok', None
     try:
         scen(env, cfg)
